@@ -7,6 +7,7 @@ CONSTANTS
   TOLR = 0
   TOLP = 0
   EMIT = FALSE
+  EMITSOL = FALSE
 INVARIANT ClauseInv
 INVARIANT InvCellsDisjoint
 INVARIANT InvCellsInDie
